@@ -23,3 +23,18 @@ Theorem C17_restore : forall t f, match f with Decrc | Scorc | Decrst [SaveCurso
 Proof. exact exec_restore. Qed.
 Check C17_restore : forall t f, match f with Decrc | Scorc | Decrst [SaveCursor] => True | _ => False end -> execute t f = Ok (spec_restore t).
 Print Assumptions C17_restore.
+
+From Avt Require Import Gen.TermFns Proofs.TermTie Proofs.TermTieW Proofs.TermTieX.
+(** SOURCE TIE BY PROOF (translate/term2coq.py -> Gen/TermFns.v, W-mode): the method of `impl Terminal` is REGENERATED from src/terminal.rs on every run as a function over the scalar record `zt` and an abstract world behind the interface `zops` (recorded calls of the buffer / tabs / dirty-line primitives with their evaluated arguments, queries for tab stops / cells / charset translation); instantiated with the model's own primitives (`Om`) it is proved equal to the hand-written model function, panics included: the model performs exactly the primitive calls the Rust text performs - same arguments, order, marked rows, erase modes, case splits *)
+(** Terminal::decset: per-mode case split and the order of the save / switch / reflow calls *)
+Theorem C17_source_terminal_decset : forall t ms, TInv t -> w_decset Om (zabs t) (wabs t) ms = wres (foldM decset_one ms t).
+Proof. exact w_decset_eq. Qed.
+Check C17_source_terminal_decset : forall t ms, TInv t -> w_decset Om (zabs t) (wabs t) ms = wres (foldM decset_one ms t).
+Print Assumptions C17_source_terminal_decset.
+
+(** Terminal::decrst *)
+Theorem C17_source_terminal_decrst : forall t ms, TInv t -> w_decrst Om (zabs t) (wabs t) ms = wres (foldM decrst_one ms t).
+Proof. exact w_decrst_eq. Qed.
+Check C17_source_terminal_decrst : forall t ms, TInv t -> w_decrst Om (zabs t) (wabs t) ms = wres (foldM decrst_one ms t).
+Print Assumptions C17_source_terminal_decrst.
+
